@@ -27,18 +27,15 @@ import (
 type exporterInfo struct {
 	signal string
 	grpc   bool
-	// timeoutBoundsExport: the documentation of WithTimeout promises that the
-	// limit covers the whole export and takes precedence over retrying.
-	timeoutBoundsExport bool
 }
 
 var exporters = map[string]exporterInfo{
-	"otlptracehttp":  {signal: "trace", grpc: false, timeoutBoundsExport: false}, // "max waiting time for the backend to process each spans batch" (ambiguous)
-	"otlpmetrichttp": {signal: "metric", grpc: false, timeoutBoundsExport: true},
-	"otlploghttp":    {signal: "log", grpc: false, timeoutBoundsExport: true},
-	"otlptracegrpc":  {signal: "trace", grpc: true, timeoutBoundsExport: true},
-	"otlpmetricgrpc": {signal: "metric", grpc: true, timeoutBoundsExport: true},
-	"otlploggrpc":    {signal: "log", grpc: true, timeoutBoundsExport: true},
+	"otlptracehttp":  {signal: "trace", grpc: false},
+	"otlpmetrichttp": {signal: "metric", grpc: false},
+	"otlploghttp":    {signal: "log", grpc: false},
+	"otlptracegrpc":  {signal: "trace", grpc: true},
+	"otlpmetricgrpc": {signal: "metric", grpc: true},
+	"otlploggrpc":    {signal: "log", grpc: true},
 }
 
 var httpExporters = []string{"otlptracehttp", "otlpmetrichttp", "otlploghttp"}
